@@ -235,6 +235,23 @@ example (ρ : ℕ → ℝ) :
   simp only [List.mem_cons, List.not_mem_nil, or_false] at hg
   rcases hg with rfl | rfl | rfl | rfl <;> exact ⟨by decide, by decide⟩
 
+-- `transpile_den` is one statement for all four device specifications; each of them accepts this
+-- circuit (a distant CNOT, an ISWAP on the same pair, a Hadamard): LinearSpinChain and
+-- CircularSpinChain (routed, basis SQRTISWAP/ISWAP/RX/RZ), SCQubits (routed on the open chain, basis
+-- RX/RY/CNOT, RZX native but never produced) and DispersiveCavityQED (no routing stage at all)
+example (ρ : ℕ → ℝ) (dev : Device) :
+    let gs : List Gate := [⟨.CNOT, [2], [0], {}⟩, ⟨.ISWAP, [0, 2], [], {}⟩, ⟨.SNOT, [1], [], {}⟩]
+    (∀ g ∈ gs, InClass 3 g) ∧ (∀ g ∈ gs, phOK g = true) ∧
+    (transpile dev 3 gs).toOption.isSome = true ∧ ∃ U, denG 3 ρ gs = some U := by
+  refine ⟨?_, by decide, by cases dev <;> decide +kernel, denG_isSome_of_denE 3 ρ _ (by decide) (by decide +kernel)⟩
+  intro g hg
+  simp only [List.mem_cons, List.not_mem_nil, or_false] at hg
+  rcases hg with rfl | rfl | rfl <;> exact ⟨by decide, by decide⟩
+
+example : (deviceSpec .scQubits).topo = some .linear ∧ (deviceSpec .cavityQED).topo = none ∧
+    (deviceSpec .linearSpinChain).topo = some .linear ∧ (deviceSpec .circularSpinChain).topo = some .circular := by
+  decide
+
 /-- **… also for the code as found**, for circuits without gates on more than two qubits -/
 theorem transpile_den_partial (dev : Device) (N : ℕ) (ρ : ℕ → ℝ)
     (gs out : List Gate) (hg : ∀ g ∈ gs, InClass N g) (hph : ∀ g ∈ gs, phOK g = true)
